@@ -270,6 +270,14 @@ fn judge(env: &mut Env, co: &mut CaseOut, sc: &Scenario, faulty_runs: &[Vec<Faul
     // finding, not a recovery problem)
     let record_deterministic = sc.reference.get(".typecache") == sc.golden.get(".typecache");
     if c.prestate != "revert" && record_deterministic {
+        if sc.golden.contains_key(".typecache") && !files.contains_key(".typecache") {
+            co.violate_hint(
+                format!("C17/cache-record-missing/{}", sig_tail),
+                "3: ... ends in the same state as a fresh generation (.typecache included)",
+                format!("{}: the recovery run succeeded but left no .typecache (every later run will regenerate)", what),
+                hint.clone(),
+            );
+        }
         if let (Some(a), Some(b)) = (files.get(".typecache"), sc.golden.get(".typecache")) {
             if a != b {
                 co.violate_hint(
